@@ -210,6 +210,7 @@ func (a *GstAttrib) Next() int64 { return a.seq.Add(1) }
 
 type GstHCall struct {
 	Seq  int64   `json:"seq"`
+	T    int64   `json:"t"` // time.Now().UnixMilli() (virtual inside a synctest bubble)
 	Inv  int     `json:"inv"`
 	Src  string  `json:"src"`
 	Call string  `json:"call"`
@@ -220,6 +221,7 @@ type GstHCall struct {
 
 type GstGSCall struct {
 	Seq  int64   `json:"seq"`
+	T    int64   `json:"t"`
 	Inv  int     `json:"inv"`
 	Src  string  `json:"src"`
 	Call string  `json:"call"`
@@ -261,7 +263,7 @@ func (e *GstEvents) rec(call string, chid datatransfer.ChannelID, x string, n in
 	}
 	e.mu.Lock()
 	if !e.closed {
-		e.calls = append(e.calls, GstHCall{Seq: e.A.Next(), Inv: id, Src: src, Call: call, C: GstChidOf(chid), X: x, N: n})
+		e.calls = append(e.calls, GstHCall{Seq: e.A.Next(), T: time.Now().UnixMilli(), Inv: id, Src: src, Call: call, C: GstChidOf(chid), X: x, N: n})
 	}
 	e.mu.Unlock()
 	return inv
@@ -460,7 +462,7 @@ func (g *GstFakeGS) log(call, r string, c GstChid, x string, n int64, ret string
 		id = inv.ID
 	}
 	g.mu.Lock()
-	g.calls = append(g.calls, GstGSCall{Seq: g.A.Next(), Inv: id, Src: src, Call: call, R: r, C: c, X: x, N: n, Ret: ret})
+	g.calls = append(g.calls, GstGSCall{Seq: g.A.Next(), T: time.Now().UnixMilli(), Inv: id, Src: src, Call: call, R: r, C: c, X: x, N: n, Ret: ret})
 	g.mu.Unlock()
 }
 
